@@ -161,3 +161,11 @@ def parser_scope(facts):
     for k in list(sc):
         sc.update(facts.closures_of(k))
     return sc
+
+
+def type_alphabet_obligation(ctx, facts, rule):
+    """the one syntactic type predicate of the crate accepts exactly [0-9A-Za-z.+-]+ (the set the properties name)"""
+    from purlsa import boolsum
+    summ = boolsum.Summarizer(facts)
+    c = boolsum.strpred_canon(summ.summary("is_valid_package_type"), facts)
+    ctx.ob(rule, "valid_type = [0-9A-Za-z.+-]+", c["nonempty"] and c["all"] == VALID_TYPE_SET and not c["other"], fn="is_valid_package_type", site=fn_site(facts, "is_valid_package_type"), detail="all={%s}" % boolsum.set_to_ranges(c["all"] or 0))
